@@ -92,11 +92,13 @@ def boundaries(t, full):
         if sg:
             lo, hi = -(1 << (w - 1)), (1 << (w - 1)) - 1
             pat = int("55" * (w // 8), 16)
-            vals = [lo, lo + 1, -1, 0, 1, 6, 3, hi - 1, hi, pat, -pat - 1]
+            quick = [lo, -1, 0, 6, 3, hi - 1, hi]
+            vals = quick + [lo + 1, 1, pat, -pat - 1]
         else:
             hi = (1 << w) - 1
-            vals = [0, 1, 6, 3, hi - 1, hi, 1 << (w - 1), (1 << (w - 1)) - 1, int("55" * (w // 8), 16), int("aa" * (w // 8), 16)]
-        return vals if full else vals[:7] + [vals[8]]
+            quick = [0, 1, 6, 3, hi, 1 << (w - 1), (1 << (w - 1)) - 1]
+            vals = quick + [hi - 1, int("55" * (w // 8), 16), int("aa" * (w // 8), 16)]
+        return vals if full else quick
     if t in PTR_TYPES:
         sz = PTR_TYPES[t]
         return [32768, 32768 + sz, 32768 - sz, 32768 + 16 * sz]
@@ -394,8 +396,12 @@ def oracle(cases, results, cfg):
 
 
 def z(x):
+    """A Z term: two 32-bit halves as primitive integers (fast to parse), signed reading for negative numbers."""
     x = int(x)
-    return "(%d)" % x if x < 0 else str(x)
+    if x == 0:
+        return "0%Z"
+    u = x % (1 << 64)
+    return "(%s %d %d)" % ("zs" if x < 0 else "zu", u >> 32, u & 0xffffffff)
 
 
 def coq_term(c, backend, strict=False, force_nonvol_cas=False):
@@ -418,7 +424,7 @@ def coq_chk_term(c, backend, r, side, force_nonvol_cas=False):
     t = coq_term(c, backend, force_nonvol_cas=force_nonvol_cas)
     assert t.startswith("obs_nat ")
     # the model's triples are (stored, returned, expected)
-    obs = "; ".join("(%d, %d, %d)" % (u64(row[side + 1]), u64(row[side]), u64(row[side + 2])) for row in r["ops"])
+    obs = "; ".join("(%s, %s, %s)" % (z(u64(row[side + 1])), z(u64(row[side])), z(u64(row[side + 2]))) for row in r["ops"])
     return "chk_nat " + t[len("obs_nat "):] + " [%s]" % obs
 
 
@@ -483,7 +489,7 @@ def compare_model(c, pred, r, side):
     return None
 
 
-HEADER = ("From Coq Require Import ZArith List.\nImport ListNotations.\nOpen Scope Z_scope.\n"
+HEADER = ("From Coq Require Import ZArith List Uint63.\nImport ListNotations.\nOpen Scope uint63_scope.\n"
           "From YV Require Import model.AtomicCSem model.AtomicStd model.AtomicObs.\n")
 
 
